@@ -188,7 +188,11 @@ class CompilerArgs(T.MutableSequence[str]):
         del self._container[index]
 
     def __len__(self) -> int:
-        return len(self._container) + len(self.pre) + len(self.post)
+        # The pending queues may hold arguments that flush_pre_post() is going
+        # to drop (duplicates of overridden arguments), so they cannot simply be
+        # counted: merge them first, like every other reader does.
+        self.flush_pre_post()
+        return len(self._container)
 
     def insert(self, index: int, value: str) -> None:
         self.flush_pre_post()
